@@ -31,7 +31,7 @@ PROPS = {
         "assumptions": ["every kernel operand of the correspondence run is placed flush against PROT_NONE guard pages (end-flush / start-flush / 64 offsets); a fault is reported with the exact case"],
     },
     "C14": {
-        "thm_modules": ["Rq.Thm.C14"],
+        "thm_modules": ["Rq.Thm.C14", "Rq.Thm.C02d"],
         "engines": [("genparams", "release"), ("genparams", "debug"), ("workload", "release"), ("workload", "debug")],
         "nostd_workload": True,
         "modelled": ["u64/u32/u16/u8 casts of generate_encoding_parameters as explicit % on naturals", "the closure kl and the N search as a reversed find? and a fuel recursion"],
@@ -78,36 +78,38 @@ PROPS = {
 }
 
 
-SOLVER = "the five-phase solver of pi_solver.rs is modelled op for op (Model/PiSolver.lean, both back-ends, incl. a model of the standard library's unstable sort that fixes the sparse column-index order) and tied to the Rust solver by comparing recorded operation vectors (engine `solver`); it is NOT yet proved to meet SolverSpec: every decoder/encoder theorem is for an arbitrary solver meeting SolverSpec, and that the Rust solver meets it is established by correspondence against the verified Gauss-Jordan oracle (C02b)"
+SOLVER = "the five-phase solver of pi_solver.rs is modelled op for op (Model/PiSolver.lean, both back-ends, incl. a model of the standard library's unstable sort that fixes the sparse column-index order) and tied to the Rust solver by comparing recorded operation vectors (engine `solver`); it is NOT proved to meet SolverSpec: every decoder/encoder theorem is for an arbitrary solver meeting SolverSpec; the verified Gauss-Jordan oracle IS proved to meet it (Thm/C02d oracle_spec, so the specification is satisfiable and every theorem is instantiated for that concrete solver, *_oracle), every solver meeting it gives the oracle's answers (decoder_agrees_with_oracle), and that the Rust solver does is established by correspondence against that oracle and by the per-run certificate certOk (C02c)"
 INVERT = "that A(K') is invertible for each of the 477 K' (consistency of the encoder's own system) is an explicit hypothesis of the object-level theorems; it is evaluated for all 477 K' by the `inter` engine, not by the kernel"
 
 PROPS.update({
     "C01": {
-        "thm_modules": ["Rq.Thm.C01", "Rq.Thm.C02"],
+        "thm_modules": ["Rq.Thm.C01", "Rq.Thm.C02", "Rq.Thm.C02d"],
         "engines": [("decblk", "release"), ("decblk", "debug"), ("decobj", "release"), ("decobj", "debug"), ("fastpath", "release"), ("solver", "release")],
         "modelled": [SOLVER],
         "assumptions": [INVERT, "packets are genuine packets of one object (an erasure code makes no promise on corrupted payloads)"],
     },
     "C02": {
-        "thm_modules": ["Rq.Thm.C02", "Rq.Thm.C02b", "Rq.Thm.C02c"],
+        "thm_modules": ["Rq.Thm.C02", "Rq.Thm.C02b", "Rq.Thm.C02c", "Rq.Thm.C02d"],
         "engines": [("decblk", "release"), ("decblk", "debug"), ("overhead", "release"), ("fastpath", "release"), ("fastpath", "debug"), ("solver", "release")],
         "modelled": [SOLVER],
         "assumptions": ["the counter generator_too_weak_singular_sets is raised when fewer than 10 certified singular sets were seen in a run"],
     },
     "C08": {
-        "thm_modules": ["Rq.Thm.C08", "Rq.Thm.C02"],
+        "serde_workload": True,
+        "thm_modules": ["Rq.Thm.C08", "Rq.Thm.C02", "Rq.Thm.C02d"],
         "engines": [("decblk", "release"), ("decobj", "release"), ("decobj", "debug"), ("decblk", "debug")],
         "modelled": [SOLVER, "#[derive(Clone)] copies the whole state (the model is a value; cloned decoders are compared by the correspondence run)"],
         "assumptions": ["packet sets are sets of genuine packets of one object"],
     },
     "C04": {
+        "serde_workload": True,
         "thm_modules": ["Rq.Thm.C04", "Rq.Thm.Tables", "Rq.Thm.C15"],
         "engines": [("cm", "release"), ("cm", "debug"), ("enc", "release"), ("params", "release"), ("tables", "release")],
         "modelled": [SOLVER],
         "assumptions": [RFC_TABLES, INVERT, "the Spec (entry-wise matrix, MT x GAMMA as a naive sum, Enc/Tuple/Rand/Deg) is written from RFC 6330 5.3; no other RaptorQ implementation is available offline to cross-check it"],
     },
     "C06": {
-        "thm_modules": ["Rq.Thm.C06", "Rq.Thm.C06b", "Rq.Thm.C06c", "Rq.Thm.Tables"],
+        "thm_modules": ["Rq.Thm.C06", "Rq.Thm.C06b", "Rq.Thm.C06c", "Rq.Thm.Cert.Common", "Rq.Thm.C02d", "Rq.Thm.Tables"],
         "engines": [("inter", "release"), ("plan", "release"), ("plan", "debug"), ("tables", "release"), ("solver", "release"), ("object", "release"), ("linear", "release"), ("cm", "release")],
         "modelled": [SOLVER],
         "assumptions": [INVERT, "plan certificates (identity-block replay) are evaluated by the compiled model driver for K <= 130 (quick) / 400 (thorough): compiled Lean evaluation, not a kernel proof; all 477 K' are covered by checking Rust's intermediate symbols against every row of the Spec system"],
@@ -123,13 +125,14 @@ PROPS.update({
 })
 PROPS.update({
     "C16": {
-        "thm_modules": ["Rq.Thm.C16", "Rq.Thm.C16s"],
+        "thm_modules": ["Rq.Thm.C16", "Rq.Thm.C16s", "Rq.Thm.C16r"],
         "engines": [("matrices", "release"), ("matrices", "debug")],
         "modelled": ["Dense and Sparse: code-shaped Lean models (Model/BitMat.lean, Model/Sparse.lean); refinement to the bit array proved for every operation of both (Thm/C16, Thm/C16s) and, for Dense, for every admissible sequence", "Vec<u64>/Vec<u16> storage as arrays/lists of naturals; the ImmutableListMap column index as an array of row lists (order canonicalised)"],
         "assumptions": ["preconditions = the explicit assert!/unimplemented! of the code, the crate's debug_indexed_column_valid rule, and 'undefined left of start_col'; tracked on a shadow array by the generator", "count_ones(row, w, w) (empty range at the very end) is outside the claimed interface"],
     },
     "C07": {
-        "thm_modules": ["Rq.Thm.C07"],
+        "serde_workload": True,
+        "thm_modules": ["Rq.Thm.C07", "Rq.Thm.C02d"],
         "engines": [("configs", "release"), ("configs", "debug"), ("kernels", "release"), ("solver", "release"), ("solver", "debug"), ("matrices", "release"), ("repair", "release")],
         "nostd_workload": True,
         "modelled": [SOLVER, "optimised vs debug-assertion code generation, std vs no_std, and the release-only errata-11 column skipping are not modelled: covered by the correspondence run only (partial)"],
